@@ -408,6 +408,8 @@ class Ctx:
         self.evaluations = 0
         self.nontrivial = set()
         self.rule = ""
+        self._cone = set()
+        self._cone_missing = set()
 
     # ---- implementation snapshot -------------------------------------
     def snapshot(self, variant="plain"):
@@ -471,9 +473,12 @@ class Ctx:
                 res["log"] = out[-6000:]
             else:
                 res["assumptions"] = parse_assumptions(out)
-        n, names = count_obligations(cone)
+        self._cone.update(cone)
+        self._cone_missing.update(missing if missing else ([] if res["ok"] else [rel]))
+        n, _ = count_obligations(sorted(self._cone))
+        nm, _ = count_obligations(sorted(f for f in self._cone_missing if os.path.exists(os.path.join(COQ, f))))
         self.obligations = n
-        self.discharged = n if res["ok"] else n - max(1, len(missing))
+        self.discharged = n if not self._cone_missing else max(0, n - max(1, nm))
         self.checker_cmds.append("make -f Makefile.coq %s (coqc 8.16.1 full .vo build) ; coqc theories/Properties/%s (Print Assumptions)" % (vo_of(rel), prop_file))
         self.proof = res
         return res
